@@ -352,8 +352,10 @@ def check_abs_obj(_):
         if e.name.startswith('PyLong_From') and e.ret is not None:
             good = z3.Or(good, z3.And(e.guard, ret.bv == e.ret.bv, V < 0, env.ghost_of(e.ret)['value'] == -V))
     for e in deleg:
-        if e.name in ('_PyLong_Copy', 'PyNumber_Absolute', 'PyNumber_Negative'):
+        if e.name in ('_PyLong_Copy', 'PyNumber_Negative'):
             good = z3.Or(good, z3.And(e.guard, e.args[0].bv == x.bv, ret.bv == e.ret.bv, V < 0))
+        if e.name == 'PyNumber_Absolute':          # CPython's own abs(): correct for every value
+            good = z3.Or(good, z3.And(e.guard, e.args[0].bv == x.bv, ret.bv == e.ret.bv))
     ob = _ob(out, 'abs(exact int object)', pre, lambda m: dict(kind='abs_o', x=m.eval(V, model_completion=True).as_signed_long()))
     ob('non-negative: the object itself; negative compact: the int -x; larger: a sign-flipped copy / CPython', [rg, z3.Not(good)])
     ob('reach: negative one-digit int', [rg, V == -5], kind_='witness')
